@@ -1,6 +1,7 @@
 package main
 
 import (
+	"encoding/json"
 	"flag"
 	"fmt"
 	"os"
@@ -91,6 +92,16 @@ func main() {
 			usage()
 		}
 		os.Exit(runProps([]string{pos[0]}, *tier, *repo, *verif, seed, !*noEv, *only))
+	case "anchors":
+		// fingerprints of the declared functions of the reviewed tree (embedded as anchors_ref.json)
+		p, err := Load(*repo, "", "")
+		if err != nil {
+			fmt.Fprintln(os.Stderr, err)
+			os.Exit(1)
+		}
+		p.alias = nil
+		b, _ := json.MarshalIndent(p.AnchorTable(), "", " ")
+		fmt.Println(string(b))
 	case "coverage":
 		// which functions have obligations anchored inside them (blind-spot finder, not a check)
 		p, err := Load(*repo, "", "")
